@@ -285,6 +285,16 @@ func (x *c11World) apply(op string) bool {
 		if r != nil && r.Err == 0 {
 			x.fail("refused-operation/acknowledged-although-destination-is-a-folder", fmt.Sprintf("%s: %v", op, r))
 		}
+	case "renamefailc":
+		// a set-file-info request with a comment and a new name that is taken: refused, and nothing of it is carried out
+		src, dst := p[1], join(dirOf(p[1]), p[2])
+		if !m.exists(src) || !m.exists(dst) || src == dst || strings.HasPrefix(m.ent[src], "->") {
+			return false
+		}
+		r := x.req(ref.Tx{Type: ref.TSetFileInfo, Fields: append(pathFields(dirOf(src)), ref.F(ref.FFileName, macRoman(filepath.Base(src))), ref.F(ref.FFileNewName, macRoman(p[2])), ref.FS(ref.FFileComment, "half done"))})
+		if r != nil && r.Err == 0 {
+			x.fail("refused-operation/acknowledged-although-the-new-name-is-taken", fmt.Sprintf("%s: %v", op, r))
+		}
 	case "uncomment":
 		src := p[1]
 		if !m.exists(src) || strings.HasPrefix(m.ent[src], "->") {
@@ -545,7 +555,7 @@ func c11Alphabet() []string {
 	a = append(a, "del|p.bin", "mkdir|dé/new", "mkdir|dé/in2.txt", "del|dé/in2.txt", "rename|dé/in2.txt|r2.txt", "move|a.txt|dé", "move|dé/in2.txt|e", "comment|dé/in2.txt", "alias|a.txt|dé", "rename|dé|dd", "move|dé|e", "del|dé", "mkdir|zé/sub")
 	a = append(a, "mkdir|new", "mkdir|a.txt", "mkdir|d", "mkdir|d/new", "mkdir|zé", "alias|a.txt|e", "alias|d|e", "alias|q.sit|d",
 		"rename|n1.txt|a.zip", "rename|a.txt|a.zip", "rename|i.dat|i.txt",
-		"movefail|q.sit|other", "renamefail|q.sit|d", "renamefail|a.txt|e", "renamefail|i.dat|d", "uncomment|q.sit", "uncomment|a.txt", "uncomment|d", "del|n1.txt", "move|n1.txt|e", "comment|n1.txt", "del|dd", "rename|dd|d", "mkdir|dd", "comment|e/a.txt", "del|e/a.txt", "rename|e/a.txt|r.txt")
+		"movefail|q.sit|other", "renamefailc|a.txt|q.sit", "renamefailc|d|e", "renamefail|q.sit|d", "renamefail|a.txt|e", "renamefail|i.dat|d", "uncomment|q.sit", "uncomment|a.txt", "uncomment|d", "del|n1.txt", "move|n1.txt|e", "comment|n1.txt", "del|dd", "rename|dd|d", "mkdir|dd", "comment|e/a.txt", "del|e/a.txt", "rename|e/a.txt|r.txt")
 	return a
 }
 
